@@ -338,7 +338,7 @@ int main(int argc, char** argv) {
         for (size_t si = 0; si < seeds.size(); si++) {
             const std::string& b = seeds[si].second; size_t N = b.size();
             for (size_t i = 0; i <= N; i += 32) tasks.push_back({0, si, i, std::min(N + 1, i + 32)});             // truncations
-            size_t step = (si == 0 || T) ? 1 : 3;                                                                  // byte substitutions
+            size_t step = (si == 0 || T) ? 1 : 2;                                                                  // byte substitutions (quick: seed rich every 2nd byte x the 64-symbol alphabet)
             for (size_t i = 0; i < N; i += 4 * step) tasks.push_back({1, si, i, std::min(N, i + 4 * step)});
             Node root = parse_exact(b); std::vector<std::pair<size_t, size_t>> h; size_t idx = 0; visit((const Node&)root, [&](const Node& n) { h.push_back({n.begin, idx++}); });
             heads.push_back(h);
@@ -383,7 +383,7 @@ int main(int argc, char** argv) {
             const std::string& b = seeds[t.fam <= 3 ? t.seed : 0].second;
             switch (t.fam) {
             case 0: for (size_t n = t.lo; n < t.hi; n++) run_one("trunc-" + seeds[t.seed].first + "-" + std::to_string(n), b.substr(0, n), R); break;
-            case 1: for (size_t i = t.lo; i < t.hi; i++) { std::string m = b; for (int v = 0; v < 256; v++) { if ((unsigned char)b[i] == v) continue; m[i] = (char)v; run_one("byte-" + seeds[t.seed].first + "-" + std::to_string(i) + "=" + std::to_string(v), m, R); } } break;
+            case 1: for (size_t i = t.lo; i < t.hi; i++) { std::string m = b; for (int v = 0; v < 256; v++) { if ((unsigned char)b[i] == v) continue; if (!T && t.seed != 0 && !memchr(A64, v, sizeof A64)) continue; m[i] = (char)v; run_one("byte-" + seeds[t.seed].first + "-" + std::to_string(i) + "=" + std::to_string(v), m, R); } } break;
             case 2: {
                 Node root = parse_exact(b); std::vector<Node*> nodes; visit(root, [&](Node& n) { nodes.push_back(&n); });
                 for (size_t i = t.lo; i < t.hi; i++) {
